@@ -164,9 +164,10 @@ def oracle(seed, tier):
             viol.append({"what": "library failed: rc=%s %s %s" % (rc, out[:1], err[-200:]), "world_json": w}); continue
         tol = 1e-6 * ln
         for k, (u, v, d, al) in enumerate(pts):
-            # three collinear coordinates: the library's trench curve overshoots the interior coordinate (recorded known finding); a mismatch whose foot lies within 15 % of the
-            # shorter piece of it is attributed to that finding
-            joint = m is not None and abs(al - m) < 0.15 * min(m, 1 - m)
+            # three collinear coordinates: the library's trench curve overshoots the interior coordinate (recorded known finding); a mismatch whose foot lies near it
+            # is attributed to that finding
+            # (measured: the affected feet lie up to 9 % of the piece before the interior coordinate and up to 9 % of the piece after it; 12 % of the respective piece is attributed)
+            joint = m is not None and ((m - al) < 0.12 * m if al <= m else (al - m) < 0.12 * (1 - m))
             best, second = planar(geo, (u, v))
             a = parse_answer(out[1 + 2 * k]); tg = parse_answer(out[2 + 2 * k])
             cases += 1
